@@ -9,5 +9,6 @@ INVARIANT ProgsWellFormed
 INVARIANT OutcomeWellFormed
 INVARIANT TypedVarsInRange
 INVARIANT Terminates
+INVARIANT NoHazardClass
 INVARIANT PublishProg
 CHECK_DEADLOCK FALSE
